@@ -261,8 +261,58 @@ class Check:
                     ob.replay = (ob.replay[0], args)
                 except Exception as e:
                     ob.replay = (ob.replay[0], {"__builder_error__": f"{type(e).__name__}: {e}"})
+        self.native_audit()
         if self.tier == "thorough":
             self.cross_check()
+
+    def native_audit(self):
+        """CPython cross-check of *discharged* obligations (defence against an unsound generator, DESIGN.md 2.9):
+        for a sample of discharged obligations that carry a replay builder, a model of the path condition is turned into
+        real objects, the REAL function is run natively and the replay's own comparison with the specification must
+        report agreement.  A disagreement means the engine proved something the real code does not do: exit 3."""
+        k = getattr(self, "audit_k", 6 if self.tier != "thorough" else 40)
+        if self.tier == "mutant" or k <= 0:
+            return
+        import random
+        rnd = random.Random(self.seed + len(self.obs))
+        # only instances ALL of whose clauses were discharged are audited: a replay compares the real code with the whole
+        # contract of its instance, not with one clause, and instances with a (known) refuted clause would disagree by design
+        groups = {}
+        for ob in self.obs:
+            groups.setdefault((ob.name.split("#")[0], ob.instance), []).append(ob)
+        clean = {k for k, g in groups.items() if all(o.status == DISCHARGED for o in g)}
+        cand = [ob for ob in self.obs if ob.status == DISCHARGED and ob.replay is not None and callable(ob.replay[1]) and ob.pc
+                and not isinstance(ob.goal, bool) and (ob.name.split("#")[0], ob.instance) in clean]
+        rnd.shuffle(cand)
+        seen = set()
+        from . import replay as _rp
+        for ob in cand:
+            if len(seen) >= k:
+                break
+            fam = (ob.name, ob.replay[0])
+            if fam in seen:
+                continue
+            sv = z3.Solver()
+            sv.set("timeout", 2000)
+            for c in ob.pc:
+                sv.add(c)
+            if sv.check() != z3.sat:
+                continue
+            seen.add(fam)
+            try:
+                args = ob.replay[1](model_to_py(sv.model()))
+                if not isinstance(args, dict) or "__builder_error__" in args:
+                    continue
+                args.setdefault("clause", ob.name.split("#", 1)[-1])
+                violated, text = _rp.run(ob.replay[0], args)
+            except Exception as e:       # the replay harness could not build this situation: not an audit result
+                self.notes.append(f"native audit skipped for {ob.key}: {type(e).__name__}: {str(e)[:120]}")
+                continue
+            self.audits += 1
+            if violated:
+                self.audit_mismatch.append(f"{ob.key}: discharged by the solver but the real code disagrees natively: {text[:300]}")
+        if self.audit_mismatch:
+            self.faults.append(f"engine/CPython mismatch on discharged obligations: {self.audit_mismatch[:2]}")
 
     def cross_check(self, limit_s=600):
         """Thorough tier: every non-ground obligation is re-discharged on cvc5; disagreement = fault."""
